@@ -70,8 +70,14 @@ THEOREMS = [
     "Jinns.LossTerms.lossNonStatioSpinnDyn_dyn",
     "Jinns.LossTerms.lossStatioSpinnDyn_none",
     "Jinns.LossTerms.lossNonStatioSpinnDyn_none",
+    "Jinns.LossTerms.gridPts_perm",
+    "Jinns.LossTerms.dynTerm_gridPts_perm",
+    "Jinns.LossTerms.holdsC03_model_statio_spinn",
+    "Jinns.LossTerms.holdsC03_model_nonstatio_spinn",
+    "Jinns.LossTerms.modelObs03StatioSpinn_reads",
+    "Jinns.LossTerms.modelObs03NonStatioSpinn_reads",
 ]
-LEAN_MODULES = ["JinnsProofs.C03", "JinnsProofs.C03C05Holds"]
+LEAN_MODULES = ["JinnsProofs.C03", "JinnsProofs.C03C05Holds", "JinnsProofs.C03SpinnHolds"]
 RULE = ("cases = (loss kind, dimension, network, equation with 1..3 residual components, weights, subset of "
         "configured terms, batch); non-trivial = the dynamic term is configured, non-zero, with per-point weighted "
         "squared residuals that are not all equal (so a wrong axis, a wrong mean or a permutation-sensitive "
